@@ -27,8 +27,8 @@ KINDS = ["EMG", "FPCal", "FPData", "Data3D", "Force", "Events", "Optical"]
 KINDS_OF = {"C15": ["EMG", "FPCal", "FPData"], "C16": ["Data3D", "Force", "EMG"], "C18": ["Data3D", "Force", "EMG", "Events"],
             "C20": KINDS}
 CHAN_KINDS = {"EMG", "FPCal", "FPData"}
-NI = 2
-NF = 3
+NI = 2          # instances the model drives
+SLOTS = 3       # slot 3: the "twin" of a decode (the same bytes decoded a second time)
 GEOM = (np.ones(3, "<f4"), np.eye(3, dtype="<f4"), np.zeros(3, "<f4"))
 
 
@@ -43,6 +43,11 @@ class Harness:
         self.labels = dict(variants[seed % len(variants)])
         self.labels[9] = "no such label"
         self.tagc = 0
+        self.nf = [3, 1, 0, 2][seed % 4]   # frame count of the blocks of this history
+        if kind == "FPData" and self.nf == 0:
+            self.nf = 2                    # the tag of an unlabelled platform lives in its first frame
+        self.inst = [None] * (SLOTS + 1)
+        self.work = None
 
     # ------------------------------------------------------------ items
     def ident(self, obj):
@@ -69,6 +74,7 @@ class Harness:
         self.tagc += 1
         t = self.tagc
         text = self.labels[lab]
+        NF = self.nf
         n = NF if good else NF + 1 + t % 2
         if not good and (t % 3 == 0 or self.kind not in ("EMG", "Data3D", "Force")):
             # only the kinds whose items carry a frame count are required to refuse a wrong length (C16)
@@ -88,13 +94,14 @@ class Harness:
             f[:, 0] = lab + 10 * t  # the 'label' of an unlabelled item lives in its data
             return ForcePlatformData(base[:, 0:2].copy(), f, base[:, 5].copy())
         if k == "Events":
-            return Event(text, [float(t)], EventsDataType.singleEvent)
+            return Event(text, [] if t % 3 == 0 else [float(t)], EventsDataType.singleEvent)
         if k == "Optical":
             return OpticalChannelData(t, "lens", "type", text, CameraViewPort(np.array([0, t], "<i4"), np.array([1, 2], "<i4")))
         raise ValueError(k)
 
     def new_block(self, items):
         k = self.kind
+        NF = self.nf
         if k == "EMG":
             return EMG(1000, NF)
         if k == "Data3D":
@@ -123,6 +130,8 @@ class Harness:
 
     def chans_of(self, b):
         k = self.kind
+        if k == "EMG" and self.nf == 0:
+            return []
         if k == "EMG":
             try:
                 raw = self.encode_bytes(b)
@@ -143,18 +152,49 @@ class Harness:
 
     def world(self):
         out = []
-        for i in range(1, NI + 1):
+        for i in range(1, SLOTS + 1):
             b = self.inst[i]
             if b is None:
-                out.append(dict(ex=False, items=[], chans=[]))
+                out.append(dict(ex=False, items=[], chans=[], aux=0))
                 continue
             try:
                 items = self.items_of(b)
                 out.append(dict(ex=True, items=[dict(id=self.ident(x), label=self.label_id(x)) for x in items],
-                                chans=self.chans_of(b)))
+                                chans=self.chans_of(b), aux=self.aux_of(b)))
             except Exception as x:  # noqa: BLE001
-                out.append(dict(ex=True, items=[dict(id=-1, label=-1)], chans=[-98, -97]))
+                out.append(dict(ex=True, items=[dict(id=-1, label=-1)], chans=[-98, -97], aux=-1))
         return out
+
+    def aux_of(self, b):
+        """number of marker links a 3D block encodes (format byTrack: i32 at offset 80)"""
+        if self.kind != "Data3D":
+            return 0
+        if self.nf == 0 and len(b):
+            links = getattr(b, "links", [])
+            return len(links)
+        raw = self.encode_bytes(b)
+        return int(np.frombuffer(raw[80:84], "<i4")[0])
+
+    def decode_twice(self, b):
+        """the same bytes decoded two times; alternately straight from the bytes and
+        through a TDF file read twice inside one context"""
+        raw = self.encode_bytes(b)
+        self.tagc += 1
+        if self.tagc % 2 == 0 or self.work is None:
+            return type(b)._build(io.BytesIO(raw), b.format.value), type(b)._build(io.BytesIO(raw), b.format.value)
+        from basictdf import Tdf
+        from basictdf.tdfBlock import BlockType
+        path = os.path.join(self.work, f"twin{self.tagc}.tdf")
+        try:
+            with Tdf.new(path).allow_write() as f:
+                f.add_block(b)
+            with Tdf(path) as f:
+                first = f.get_block(b.type)
+                second = f[b.type] if self.tagc % 4 == 1 else f.get_block(b.type)
+            return first, second
+        finally:
+            if os.path.exists(path):
+                os.unlink(path)
 
     # ------------------------------------------------------------ calls
     def run(self, lab):
@@ -174,10 +214,10 @@ class Harness:
         elif op == "decode":
             j = lab["j"]
             o["j"] = j
+            o["twin"] = SLOTS
 
             def fn():
-                raw = self.encode_bytes(b)
-                self.inst[j] = type(b)._build(io.BytesIO(raw), b.format.value)
+                self.inst[j], self.inst[SLOTS] = self.decode_twice(b)
         elif op == "add":
             x = self.new_item(lab["label"], lab["good"])
             c = lab["c"]
@@ -248,6 +288,17 @@ class Harness:
                     val.append(1 if self.labels[key] in b else 0)
                 elif what == "badkey":
                     b[[1.5, None, (0,), b""][self.tagc % 4]]
+        elif op == "aux":
+            def fn():
+                pair = (self.tagc % 5, 7)
+                links = getattr(b, "links", None)
+                if links is None:
+                    b.links = [pair]
+                elif isinstance(links, list):
+                    links.append(pair)
+                else:
+                    from basictdf.tdfData3D import LinkType
+                    b.links = np.append(links, np.array([pair], dtype=LinkType.btype))
         elif op == "encode":
             def fn():
                 raw = self.encode_bytes(b)
@@ -315,6 +366,8 @@ def parse_label(lab):
         return dict(op="lookup", i=i, what=m2.group(1), key=int(m2.group(2)))
     if name == "Encode":
         return dict(op="encode", i=i)
+    if name == "AuxEdit":
+        return dict(op="aux", i=i)
     raise common.Machinery(f"unparsed label {lab!r}")
 
 
@@ -338,6 +391,7 @@ def graph(kind):
 
 def run_tour(kind, labs, seed):
     h = Harness(kind, seed)
+    h.work = common.scratch()
     init = h.world()
     steps = []
     for lab in labs:
@@ -346,8 +400,11 @@ def run_tour(kind, labs, seed):
             continue
         if c["op"] != "construct" and h.inst[c["i"]] is None:
             break  # the real run left the model's path (an earlier construct failed): stop this tour
+        if h.nf == 0 and c["op"] in ("encode", "decode", "aux") and kind in ("EMG", "Data3D", "Force", "FPData"):
+            continue  # tracks without frames cannot be encoded; such histories only exercise the editing API
         steps.append(h.run(c))
-    return dict(kind=kind, init=init, steps=steps, meta=dict(labels=labs, seed=seed))
+    return dict(kind="EMG0" if (kind == "EMG" and h.nf == 0) else kind, init=init, steps=steps,
+                meta=dict(labels=labs, seed=seed, kind=kind))
 
 
 def validate(traces):
@@ -433,7 +490,7 @@ def check(prop, tier, seed, replay=None):
             before = tr["steps"][mine[0][0] - 2]["w"] if mine[0][0] > 1 else tr["init"]
             run.violation(f"{mine[0][1]} at step {mine[0][0]} on {tr['kind']}: call {json.dumps(ev['o'])} -> {json.dumps(ev['r'])}; "
                           f"before {json.dumps(before)} after {json.dumps(ev['w'])}",
-                          dict(kind=tr["kind"], labels=tr["meta"]["labels"], seed=tr["meta"]["seed"], clauses=cl))
+                          dict(kind=tr["meta"]["kind"], labels=tr["meta"]["labels"], seed=tr["meta"]["seed"], clauses=cl))
     if others:
         run.cov["clauses_of_other_properties"] = others
     return run.finish()
